@@ -601,7 +601,8 @@ func gotOffer(c *webClient, id, label string, sdp string, replace string) error 
 		return err
 	}
 
-	if replace != "" {
+	// a client can only replace its own streams
+	if replace != "" && getUpConn(c, replace) != nil {
 		up.replace = replace
 		delUpConn(c, replace, c.Id(), false)
 	}
